@@ -52,6 +52,42 @@ def gap_hyps(na, st):
     st.z.add(CURA, HSA, -1)  # current <= HSA-1
 
 
+def check_offline_forgets_ring(ctx, P):
+    """d'.truthful (offline): "not ready until two identical token rotations were seen" must also hold after set_offline()/set_online():
+    going offline re-creates the station, or replaces its token ring (LAS, validity, PS/NS) by a freshly constructed one, on every path."""
+    f = ctx.need_fn(CR, ST + "::set_state")
+    if f is None:
+        return
+    tb = TermBuilder(f, P)
+    marks = {}
+    for b, i, s in stmts(f):
+        if "a" in s and mk_place(s["a"]) == (1, (("deref",),)):
+            marks[(b, i)] = "whole"
+    for b, c in call_sites(f):
+        if mk_place(c["dest"]) == (1, (("deref",),)):
+            marks[(b, None)] = "whole"
+        d = c.get("dest")
+        if d and has_field(d, "token_ring", None) and M.callee_matches(c.get("callee") or "", "TokenRing::new"):
+            fields = [x for x in d.get("p", []) if isinstance(x, dict) and "f" in x]
+            if len(fields) == 1:
+                marks[(b, None)] = "whole"
+    g = GuardAnalysis(f, P, mem_kill=True, modsets=ModSets(P), marks=marks)
+    bad = []
+    n = 0
+    for rb in f.return_blocks:
+        for fs in g.at(rb):
+            off = [vs for k, vs in fs.items() if k[0] == "discr" and show(k[1]) in ("state", "self.connectivity_state") and vs == ("in", frozenset(["Offline"]))]
+            if not off:
+                continue
+            n += 1
+            if 0 in g.count_of(fs, "whole"):
+                bad.append(M.fmt_facts(fs)[:200])
+    ctx.ob("d.truthful", "offline-forgets-ring", n >= 1 and not bad,
+           "set_state(Offline) can return without re-creating the station or its token ring: after going online again the station still holds its "
+           "old list of active stations as valid and reports `ready` (and may accept a token) before it has seen two identical token "
+           "rotations: " + "; ".join(bad[:1]), f.loc(0))
+
+
 def check(ctx):
     P = ctx.prog
     check_next_gap_poll(ctx, P)
@@ -60,6 +96,7 @@ def check(ctx):
     check_wait_counter(ctx, P)
     check_reply_eval(ctx, P)
     check_truthful(ctx, P)
+    check_offline_forgets_ring(ctx, P)
 
 
 # ------------------------------------------------------------------------------------------------
